@@ -1394,6 +1394,13 @@ class TreeCase:
             got, free1, r1text = res if st == "ok" else (res, [], None)
             if want is not None and got != fr(want):
                 vfail(P, "partial:value:" + _shape_sig(t), f"evaluate({b1}) then evaluate({b2}) = {got}, exact {fr(want)} (residual {r1text!r})", self.case_obj, got, (t, b1, b2))
+            # oracle: a binding of every symbol with an integer exact value comes back as a Python int ("the concrete
+            # integer value if fully evaluated"), not as a dimension holding a number
+            if (st == "ok" and r1kind and r1kind[0][0] == "dim" and want is not None and want.denominator == 1
+                    and set(tree_syms(t)) <= set(b1)):
+                if canon_text(r1kind[0][1]) == [want.numerator, 1]:  # the value is right, its type is not (a wrong value is oracle 3's)
+                    P.fail("evaluate:complete:not-an-int:" + _shape_sig(t), f"evaluate({b1}) binds every symbol and the exact value is {want.numerator}, "
+                           f"but a SymbolicDim({r1kind[0][1]!r}) is returned instead of an int", self.case_obj)
             allowed = set(tree_syms(t)) - set(b1)
             if want is not None and not set(free1) <= allowed:
                 P.fail("partial:free-symbols", f"residual {r1text!r} has free symbols {free1}, expected a subset of {sorted(allowed)}", self.case_obj)
